@@ -26,8 +26,10 @@ struct Sub {
     int prio = PRIO_NORM;
     bool oneshot = false;
     long token = 0;        // user data given at subscription (identifies which subscription matched)
+    long serial = 0;       // identity of this subscription instance
     regex_t re; bool re_ok = false;
     int lib_flags = 0;
+    bool maybe_gone = false;  // one-shot subscription whose message was read but discarded: the library may have retired it
 };
 
 struct Msg {
@@ -38,10 +40,11 @@ struct Msg {
     long payload = 0;             // payload cell id, 0 for system messages (NULL data)
     bool sys = false;
     bool optional = false;        // may legitimately never be delivered (overflow, allowed-not-required notification)
+    bool floating = false;        // optional and without a known position (caused by a transition that could not be observed when it happened)
     bool late = false;            // accepted while the loop was already stopping
     bool pill = false;
     int epoch = 0;                // loop run during which it was accepted
-    struct Via { std::string sub_topic; long token; int prio; bool oneshot; };
+    struct Via { std::string sub_topic; long token; int prio; bool oneshot; long sub_serial; };
     std::vector<Via> via;         // subscriptions of the recipient that matched when the message was accepted (empty: direct / broadcast)
 };
 
@@ -70,6 +73,7 @@ struct TmrSrc { int idx; bool oneshot; int prio; long token; };
 
 struct Inst {
     int id = 0;                   // index in the executor's instance table
+    int ctx_gen = 0;              // which context registration it belongs to
     int slot = 0;
     std::string name;
     int hflags = 0;               // harness flag encoding
